@@ -847,3 +847,31 @@ MUTANTS += [
         (A, _MIME_SPLIT_I, "        item_type, item_subtype, *item_params = _normalize_mime(item)\n")]},
     {"name": "mime-split-helper-returns-parameters-unsorted", "expect": "R17.4", "edits": _s5("mime-parts-split-by-a-helper-with-starred-unpacking", ("    return type_, subtype, sorted(params)\n", "    return type_, subtype, params\n"))},
 ]
+
+# R17.6 (refused offers and the primary-tag fallbacks): the unchanged tree carries the known findings; repaired shapes
+# must be silent (no finding, no give-up) in more than one spelling
+_R176_AT = "        result = super().best_match(matches)\n\n        if result is not None:\n            return result\n\n        # Fall back to accepting primary tags."
+TWINS += [
+    {"name": "refused-offers-filtered-before-fallbacks-walrus", "edits": [("datastructures/accept.py", _R176_AT, "        result = super().best_match(matches)\n\n        if result is not None:\n            return result\n\n        matches = [\n            item\n            for item in matches\n            if (found := self._best_single_match(item)) is None or found[1] > 0\n        ]\n\n        # Fall back to accepting primary tags.")]},
+    {"name": "refused-offers-filtered-before-fallbacks-quality-find", "edits": [("datastructures/accept.py", _R176_AT, "        result = super().best_match(matches)\n\n        if result is not None:\n            return result\n\n        allowed = []\n        for offer in matches:\n            if self.find(offer) < 0 or self.quality(offer) > 0:\n                allowed.append(offer)\n        matches = allowed\n\n        # Fall back to accepting primary tags.")]},
+]
+
+
+# /repo fix b5aeb6b widened CharsetAccept's handler to (LookupError, ValueError) and added a comment line: anchors
+# written against the older text are rebased here (the replacement text of an entry is left as its author wrote it).
+def _rebase_charset_handler(entries):
+    old_h = "            except LookupError:\n                return name.lower()"
+    new_h = "            except (LookupError, ValueError):\n                # ValueError: the name contains a null character.\n                return name.lower()"
+    for e in entries:
+        fixed = []
+        for ed in e["edits"]:
+            if isinstance(ed, tuple) and len(ed) == 3 and ed[0] == A and old_h in ed[1]:
+                ed = (ed[0], ed[1].replace(old_h, new_h), ed[2])
+            elif isinstance(ed, tuple) and len(ed) == 3 and ed[0] == A and ed[1].startswith("            except LookupError:\n"):
+                ed = (ed[0], ed[1].replace("            except LookupError:\n", "            except (LookupError, ValueError):\n", 1), ed[2].replace("            except LookupError:\n", "            except (LookupError, ValueError):\n", 1))
+            fixed.append(ed)
+        e["edits"] = fixed
+
+
+_rebase_charset_handler(MUTANTS)
+_rebase_charset_handler(TWINS)
